@@ -432,7 +432,7 @@ def gate_cases(rng, tier):
 def gen_cases(rng, tier):
     yield from boundary_cases(rng, tier)
     yield from gate_cases(rng, tier)
-    yield from grid_cases(rng, 6 if tier == "quick" else 100)
+    yield from grid_cases(rng, 4 if tier == "quick" else 100)
     if tier == "thorough":
         for _ in range(6):
             yield from boundary_cases(rng, tier)
